@@ -65,31 +65,24 @@ func (f *globalMaxInflight) add(n int32) int32 {
 }
 
 func (f *globalMaxInflight) SetState(instance string, requestId int64, current int32) (bool, int32, error) {
-	f.lock.RLock()
+	// Reports and removals are serialized: the read-modify-write of an
+	// instance's count and of the running total must not interleave with
+	// another report or with the removal of that instance.
+	f.lock.Lock()
+	defer f.lock.Unlock()
+
 	state, ok := f.instanceStates[instance]
-	f.lock.RUnlock()
 
 	if current < 0 {
 		if ok {
-			f.lock.Lock()
 			delete(f.instanceStates, instance)
 			f.add(-state.count)
-			f.lock.Unlock()
-			current = 0
 		}
 		return false, -1, nil
 	} else if !ok || state == nil {
-		f.lock.Lock()
-		state, ok = f.instanceStates[instance]
-		if !ok || state == nil {
-			state = &instanceState{}
-			f.instanceStates[instance] = state
-		}
-		f.lock.Unlock()
+		state = &instanceState{}
+		f.instanceStates[instance] = state
 	}
-
-	f.lock.RLock()
-	defer f.lock.RUnlock()
 
 	if requestId > 0 {
 		oldId := atomic.LoadInt64(&state.requestId)
@@ -104,9 +97,14 @@ func (f *globalMaxInflight) SetState(instance string, requestId int64, current i
 	overflowed := f.add(delta)
 
 	if overflowed > 0 {
-		atomic.AddInt32(&state.count, -delta)
-		f.add(-delta)
-		return false, old, nil
+		if delta > 0 {
+			// only an increase is refused; a report that lowers (or repeats)
+			// the count is always applied, also above a lowered limit
+			atomic.AddInt32(&state.count, -delta)
+			f.add(-delta)
+			return false, old, nil
+		}
+		return false, current, nil
 	}
 	if overflowed == 0 && current > 0 {
 		return false, current, nil
